@@ -30,11 +30,15 @@ structure State where
   produced : List String := []            -- fresh seeds handed to the queue as new URLs
   passes : List String := []              -- ids in the order they were sent round again (feedback)
   accepted : List String := []            -- ids in the order the reactor accepted them from the queue
+  frozen : Bool := false                  -- the reactor was frozen (first step of a stop)
+  parked : List String := []              -- seeds refused as feedback by the frozen reactor: they stay in its state
+                                          -- table and are handed back to the queue (reset) when the source stops
 
 inductive Ev
   | accept (id : String) (t : Tree)        -- the reactor accepts a seed from the queue
   | advance (id : String) (t' : Tree)      -- the stage holding the seed hands it on with its tree transformed
   | finish (id : String)                   -- a finisher worker handles the seed it received
+  | freeze                                 -- `reactor.Freeze()`
 deriving Inhabited
 
 def ids (s : State) : List String := s.items.map (·.id)
@@ -46,15 +50,18 @@ def finStep (P : PF) (I : IF) (s : State) (it : Item) (rest : List Item) : State
     if P.finFreshGoesToProduce then { s with items := rest, produced := it.id :: s.produced }
     else { s with items := rest }
   | (t', .feedback) =>
-    if P.finIncompleteGoesToFeedback then { s with items := { it with place := .reactorQ, tree := t' } :: rest, passes := it.id :: s.passes }
+    if P.finIncompleteGoesToFeedback then
+      if s.frozen then { s with items := rest, parked := it.id :: s.parked }    -- ErrReactorFrozen: neither fed back nor reported
+      else { s with items := { it with place := .reactorQ, tree := t' } :: rest, passes := it.id :: s.passes }
     else { s with items := rest }
   | (t', .finish) =>
     if P.finCompleteMarksThenNotifies && P.finNotifyUnconditional then { s with items := rest, acks := (it.id, t') :: s.acks }
     else { s with items := rest }
 
 def step (P : PF) (I : IF) (s : State) : Ev → State
+  | .freeze => { s with frozen := true }
   | .accept id t =>
-    if (ids s).contains id then s      -- the reactor refuses an id it already tracks
+    if (ids s).contains id || s.frozen then s      -- the reactor refuses an id it already tracks, and everything once frozen
     else { s with items := { id := id, place := .reactorQ, tree := t } :: s.items, accepted := id :: s.accepted }
   | .advance id t' =>
     { s with items := s.items.map (fun it => if it.id == id && it.place != .fin then { it with place := it.place.next, tree := t' } else it) }
